@@ -4,8 +4,8 @@ from common import *
 import decl, gen, pktcases, pktprops
 
 PID = 'C01'
-TARGETS = ['Properties/C01.vo', 'Bridge/FragBridge.vo', 'Bridge/MoveBridge.vo', 'Bridge/IntBridge.vo', 'Bridge/DataBridge.vo', 'Bridge/BitsBridge.vo', 'Bridge/CodegenBridge.vo', 'Bridge/RefBridge.vo']
-KERNELS = ['G1_frag', 'G3_move', 'G4_seq', 'G5_bits', 'G6_int', 'G8_data', 'G11_codegen', 'G16_ref', 'G16b_optional']
+TARGETS = ['Properties/C01.vo', 'Bridge/FragBridge.vo', 'Bridge/MoveBridge.vo', 'Bridge/IntBridge.vo', 'Bridge/DataBridge.vo', 'Bridge/BitsBridge.vo', 'Bridge/CodegenBridge.vo', 'Bridge/RefBridge.vo', 'Bridge/PlumbingBridge.vo']
+KERNELS = ['G1_frag', 'G3_move', 'G4_seq', 'G5_bits', 'G6_int', 'G8_data', 'G11_codegen', 'G16_ref', 'G16b_optional', 'G17_builder', 'G19_field_ctor']
 PROP_FILE = 'Properties/C01.v'
 
 
@@ -61,8 +61,10 @@ def check_roundtrip(r, exact):
             want = cover.get(i, 0x2e)
             if b != want:
                 return f"output byte {i} is {b:#x}, required {('%#x' % want) if want is not None else 'n/a'} ({'consumed' if i in cover else 'skipped'} position)"
-        if len(out) > max(maxe, o['end'] - off):
-            return f"output longer ({len(out)}) than the region the parse traversed ({max(maxe, o['end'] - off)})"
+        # ... and every position a positioning pseudo-field set the cursor to (a field of no bytes placed there extends the output)
+        trav = max([maxe, o['end'] - off] + [m - off for m in o.get('moves', [])])
+        if len(out) > trav:
+            return f"output longer ({len(out)}) than the region the parse traversed ({trav})"
         return None
     if 'ok' in p:
         out = bytes.fromhex(p['ok'])
